@@ -22,7 +22,7 @@ func main() {
 			"states = structs, transitions = law evaluations; every execution is non-trivial (it ran gombok and the compiler)."
 		r.Assumptions = []string{
 			"the Go toolchain and reflect.DeepEqual are correct; the law test reads private fields directly (same package) as the oracle",
-			"a declaration on which gombok exits non-zero with a diagnostic is not 'accepted' (census rejected/<shape>, evidence key rejected_by_gombok); a declaration on which it exits 0 is",
+			"a declaration on which gombok exits non-zero with a diagnostic is not 'accepted' (census rejected/<shape>, evidence key rejected_by_gombok); a declaration on which it exits 0 is; a non-zero exit with a Go panic / fatal error (stack trace) is a crash of the generator and is reported as generator-crash/<shape>",
 			"FromTuple/Apply/FromLabelled/AsImmutable onto a foreign base value are only required to set the fields they carry; onto the value itself they must reproduce it exactly",
 			"AsMap/FromMap is demanded from the zero value as base and not for func/chan fields; a None and a nil interface, which the map cannot carry, then compare equal to the untouched field",
 			"go vet complaints about generated code are counted, not reported: the statement demands that the output compiles",
